@@ -97,6 +97,56 @@ def _cargo_env():
     return env
 
 
+def _build_artifact(args, cwd, what, want):
+    """cargo build with JSON messages; returns the path of the artifact of *this* package (the hashed file under
+    deps/, which is unique per package id - the uplifted target/release/<name> is shared between different
+    $VERIF_REPO builds and may be overwritten by a concurrent one). want = 'cdylib' | 'bin'."""
+    import json as _json
+
+    p = subprocess.run(
+        ["cargo"] + args + ["--message-format=json-render-diagnostics"], cwd=cwd, env=_cargo_env(), stdout=subprocess.PIPE, stderr=subprocess.PIPE, text=True
+    )
+    if p.returncode != 0:
+        sys.stderr.write(p.stderr[-6000:])
+        raise MachineryError("%s failed to build (cargo exit %d)" % (what, p.returncode))
+    found = None
+    here = os.path.realpath(cwd)
+    for line in p.stdout.splitlines():
+        if not line.startswith("{"):
+            continue
+        try:
+            m = _json.loads(line)
+        except ValueError:
+            continue
+        if m.get("reason") != "compiler-artifact":
+            continue
+        if here not in os.path.realpath(m.get("manifest_path", "")):
+            continue
+        kinds = m.get("target", {}).get("kind", [])
+        if want == "bin" and "bin" in kinds and m.get("executable"):
+            found = m["executable"]
+        elif want == "cdylib" and "cdylib" in kinds:
+            sos = [f for f in m.get("filenames", []) if f.endswith(".so")]
+            if sos:
+                found = sos[0]
+    if not found or not os.path.exists(found):
+        raise MachineryError("%s: cargo reported no %s artifact" % (what, want))
+    # prefer the hashed twin under deps/ (hard link of the uplifted file), it cannot be overwritten by another package
+    d, b = os.path.split(found)
+    stem = os.path.splitext(b)[0]
+    deps = os.path.join(d, "deps")
+    cands = [os.path.join(deps, f) for f in os.listdir(deps)] if os.path.isdir(deps) else []
+    try:
+        st = os.stat(found)
+        for c in cands:
+            cs = os.stat(c)
+            if (cs.st_ino, cs.st_dev) == (st.st_ino, st.st_dev) and c != found:
+                return c
+    except OSError:
+        pass
+    return found
+
+
 def _run_cargo(args, cwd, what):
     t0 = time.time()
     p = subprocess.run(
@@ -151,18 +201,26 @@ def build_ext(repo=None, quiet=True):
     )
     _lock(repo, wdir)
     target = os.path.join(CACHE, "target-ext")
-    _run_cargo(["build", "--release", "--offline", "--target-dir", target], wdir, "extension")
-    so = os.path.join(target, "release", "libgufo_snmp.so")
-    if not os.path.exists(so):
-        raise MachineryError("extension artifact missing: " + so)
     os.makedirs(os.path.join(CACHE, "stage"), exist_ok=True)
-    tmp = tempfile.mkdtemp(prefix="stage-", dir=os.path.join(CACHE, "stage"))
+    import fcntl
+
+    lock = open(os.path.join(CACHE, "build-ext.lock"), "w")
+    fcntl.flock(lock, fcntl.LOCK_EX)  # build + copy must not interleave with a build for another $VERIF_REPO
+    try:
+        if os.path.exists(os.path.join(stage, "gufo", "snmp", "_fast.so")):
+            return stage
+        so = _build_artifact(["build", "--release", "--offline", "--target-dir", target], wdir, "extension", "cdylib")
+        tmp = tempfile.mkdtemp(prefix="stage-", dir=os.path.join(CACHE, "stage"))
+        shutil.copyfile(so, os.path.join(tmp, "_fast.so.new"))
+    finally:
+        fcntl.flock(lock, fcntl.LOCK_UN)
+        lock.close()
     shutil.copytree(
         os.path.join(repo, "src", "gufo"),
         os.path.join(tmp, "gufo"),
         ignore=shutil.ignore_patterns("__pycache__", "*.so", "*.pyc"),
     )
-    shutil.copyfile(so, os.path.join(tmp, "gufo", "snmp", "_fast.so"))
+    os.rename(os.path.join(tmp, "_fast.so.new"), os.path.join(tmp, "gufo", "snmp", "_fast.so"))
     try:
         os.rename(tmp, stage)
     except OSError:
@@ -174,7 +232,8 @@ def build_ext(repo=None, quiet=True):
 def _gc_stage(keep, max_keep=6):
     d = os.path.join(CACHE, "stage")
     try:
-        ents = [e for e in os.listdir(d) if e != keep and not e.startswith("stage-")]
+        now = time.time()
+        ents = [e for e in os.listdir(d) if e != keep and not e.startswith("stage-") and now - os.path.getmtime(os.path.join(d, e)) > 3 * 3600]
         ents.sort(key=lambda e: os.path.getmtime(os.path.join(d, e)))
         for e in ents[:-max_keep] if len(ents) > max_keep else []:
             shutil.rmtree(os.path.join(d, e), ignore_errors=True)
@@ -251,13 +310,20 @@ def build_rsx(repo=None):
     _write_if_changed(os.path.join(base, "rsx", "Cargo.toml"), RSX_MANIFEST.format(verif=VERIF))
     _lock(repo, os.path.join(base, "rsx"))
     target = os.path.join(CACHE, "target-rs")
-    _run_cargo(["build", "--release", "--offline", "--target-dir", target], os.path.join(base, "rsx"), "rsx")
-    exe = os.path.join(target, "release", "rsx")
-    if not os.path.exists(exe):
-        raise MachineryError("rsx artifact missing")
     os.makedirs(bindir, exist_ok=True)
-    tmp = out + ".tmp%d" % os.getpid()
-    shutil.copyfile(exe, tmp)
+    import fcntl
+
+    lock = open(os.path.join(CACHE, "build-rs.lock"), "w")
+    fcntl.flock(lock, fcntl.LOCK_EX)
+    try:
+        if os.path.exists(out):
+            return out
+        exe = _build_artifact(["build", "--release", "--offline", "--target-dir", target], os.path.join(base, "rsx"), "rsx", "bin")
+        tmp = out + ".tmp%d" % os.getpid()
+        shutil.copyfile(exe, tmp)
+    finally:
+        fcntl.flock(lock, fcntl.LOCK_UN)
+        lock.close()
     os.chmod(tmp, 0o755)
     os.rename(tmp, out)
     # keep the bin dir small
